@@ -59,6 +59,10 @@ def cases(shard, rnd):
         for ch in gf.CHANNELS:
             yield {'t': 'body', 'body': rnd.randbytes(rnd.randint(1, 64)),
                    'ch': ch}
+        for k in range(40):
+            raw = rnd.randbytes(rnd.choice([1, 8, 255, 4096]))
+            yield {'t': 'body', 'body': bytearray(raw) if k % 2 else
+                   memoryview(raw), 'ch': gf.rchannel(rnd)}
         for _ in range(shard['rand']):
             n = rnd.choice([1, 2, 3, 7, 8, 9, rnd.randint(1, 600)])
             b = bytearray(rnd.randbytes(n))
@@ -71,6 +75,11 @@ def cases(shard, rnd):
     elif w == 'hb':
         yield {'t': 'hb'}
     elif w == 'ph-axes':
+        for tri in ([0, 9, 1], [0, 9, 0], [0, 8, 0], [0, 10, 0], [1, 0, 0],
+                    [1, 1, 0], [2, 0, 0], [0, 0, 9], [9, 1, 0], [0, 0, 0],
+                    [255, 255, 255], [1, 1, 8], [1, 1, 9], [0, 1, 0],
+                    [10, 10, 10], [13, 10, 0]):
+            yield {'t': 'ph', 'ver': tri}
         for axis in range(3):
             for v in range(256):
                 tri = [rnd.randint(0, 255) for _ in range(3)]
@@ -117,6 +126,12 @@ def run_case(case, rec):
             common.disturb_encoder(common.RND, 1)
             rec.count('failed_encodes_interleaved')
         obj = body.ContentBody(b)
+        lo = call(len, obj)
+        if not lo.ok:
+            rec.violation('body-len-raised:' + str(lo.exc_type),
+                          'len(ContentBody(%s of %d bytes)) %s'
+                          % (type(b).__name__, len(b), lo.describe()), wit)
+            return
         if len(obj) != len(b):
             rec.violation('body-len', 'len(ContentBody) = %r for %d bytes'
                           % (len(obj), len(b)), wit)
@@ -128,14 +143,15 @@ def run_case(case, rec):
                           % (len(b), m.describe()), wit)
             return
         u = common.lib_unmarshal(m.value)
-        rec.nt(canon.digest_bytes(b) ^ ch)
+        rec.nt(canon.digest_bytes(bytes(b)) ^ ch)
+        rec.seen('body_types', type(b).__name__)
         if not u.ok:
             rec.violation('body-decode-failed:' + str(u.exc_type or 'budget'),
                           'own body frame of %d bytes %s'
                           % (len(b), u.describe()), wit)
             return
         n, ch2, g = u.value
-        if boundary.kind_of(g) != 'body' or bytes(g.value) != b or \
+        if boundary.kind_of(g) != 'body' or bytes(g.value) != bytes(b) or \
                 type(g.value) not in (bytes, bytearray, memoryview) or \
                 len(g) != len(b):
             rec.violation('body-changed', 'body of %d bytes came back as %s '
